@@ -45,6 +45,17 @@ func (ex *Exec) elem0(p *Ptr) *Ptr {
 	return p.extend(Step{Field: -1, Index: sym.ConstI(0)})
 }
 
+// ArrayPtrToSlice is p[:] for a pointer to an array of n elements.
+func (ex *Exec) ArrayPtrToSlice(p *Ptr, n int) *SliceVal {
+	b := ex.elem0(p)
+	return &SliceVal{Base: &Ptr{Obj: b.Obj, Path: b.Path}, Len: sym.ConstI(int64(n)), Cap: sym.ConstI(int64(n))}
+}
+
+// SliceToArrayPtr is (*[N]T)(s): a pointer that views the storage of the slice.
+func (ex *Exec) SliceToArrayPtr(sv *SliceVal) *Ptr {
+	return &Ptr{Obj: sv.Base.Obj, Path: sv.Base.Path, View: true}
+}
+
 // ReadArray reads the n bytes of the byte array p points to.
 func (ex *Exec) ReadArray(st *State, p *Ptr, n int) *sym.Term {
 	return ex.ReadBytes(st, ex.elem0(p), n)
@@ -218,6 +229,33 @@ func (ex *Exec) LoadElem(st *State, sv *SliceVal, i int64) Val {
 func (ex *Exec) IsLeaf(st *State, p *Ptr) bool {
 	c := ex.LoadCell(st, p)
 	return c != nil && c.Kids == nil && c.Arr == nil && c.symIdx == nil
+}
+
+// EnclosingLeaf returns the pointer to the abstract (leaf) cell that p points into, when p names a component of an
+// object kept abstract at this layer (e.g. &s.m of an abstract Scalar); nil otherwise.
+func (ex *Exec) EnclosingLeaf(st *State, p *Ptr) *Ptr {
+	c := st.cellOf(p.Obj)
+	for i, s := range p.Path {
+		if c == nil {
+			return nil
+		}
+		if c.Kids == nil && c.Arr == nil && c.symIdx == nil {
+			return &Ptr{Obj: p.Obj, Path: append([]Step(nil), p.Path[:i]...)}
+		}
+		k := s.Field
+		if k < 0 {
+			idx, ok := s.Index.Int64()
+			if !ok {
+				return nil
+			}
+			k = int(idx)
+		}
+		if c.Kids == nil || k < 0 || k >= len(c.Kids) {
+			return nil
+		}
+		c = c.Kids[k]
+	}
+	return nil
 }
 
 // CallModel invokes the configured intercept of fn (the upper-layer specification) on args.
